@@ -4,12 +4,14 @@ import EaselModel.Stats.Fit
 import EaselModel.Stats.FitCG
 import EaselModel.Stats.Rootfinder
 import EaselModel.Stats.MinTrace
+import EaselModel.Stats.HistExpect
 /-! Line-protocol driver for the C11 model (histogram + maximum-likelihood fits) over `Float`. -/
 open EaselModel EaselModel.Proto EaselModel.Stats
 
 structure S where
   h : Option (Hist Float) := none
   xs : Array Float := #[]
+  e : Expect Float := Expect.init
 
 def hex64 (x : UInt64) : String :=
   let s := (Nat.toDigits 16 x.toNat)
@@ -218,9 +220,48 @@ def stepH (s : S) (ws : List String) (h : Hist Float) : S × String :=
       | .fault => (s, "fault")
       | .val (st, h', m) => ({ s with h := some h' }, if st == .ok then s!"ok mass={fb m}" else st.name)
     | none => (s, "bad-op")
+  | "hexpect" :: _ =>
+    match cdfFamily (α := Float) ((arg? ws "cdf").getD "") (parseBitsList ((arg? ws "c").getD "-")) with
+    | none => (s, "bad-op")
+    | some cdf => let (h', e') := h.setExpect s.e cdf; ({ s with h := some h', e := e' }, "ok")
+  | "hexptail" :: _ =>
+    match cdfFamily (α := Float) ((arg? ws "cdf").getD "") (parseBitsList ((arg? ws "c").getD "-")) with
+    | none => (s, "bad-op")
+    | some cdf =>
+      let (st, h', e') := h.setExpectedTail s.e ((argF ws "base").getD 0.0) ((argF ws "pmass").getD 0.0) cdf
+      ({ s with h := some h', e := e' }, st.name)
+  | "hexpdump" :: _ =>
+    match s.e.expect with
+    | none => (s, s!"ok null emin={s.e.emin} tailfit={b01 s.e.isTailfit} done={b01 h.isDone}")
+    | some ex =>
+      let hh := ex.foldl (fun acc v => fnv acc (if v != v then (0x7ff8000000000000 : UInt64) else v.toBits)) 0xcbf29ce484222325
+      let npos := ex.foldl (fun acc v => if v > 0.0 then acc + 1 else acc) 0
+      (s, s!"ok nb={h.nb} emin={s.e.emin} tailfit={b01 s.e.isTailfit} done={b01 h.isDone} tailbase={fb s.e.tailbase} tailmass={fb s.e.tailmass} npos={npos} hash={hex64 hh}")
+  | "hgood" :: _ =>
+    match h.goodness s.e ((argInt? ws "nfitted").getD 0) with
+    | .fault => (s, "fault")
+    | .val (g, _) => (s, if g.st == .einval then "einval" else s!"{g.st.name} nbins={g.nbins} G={fb g.g} Gp={fb g.gp} X2={fb g.x2} X2p={fb g.x2p}")
+  | "hplot" :: _ =>
+    match h.plotObserved with
+    | .fault => (s, "fault")
+    | .val rows =>
+      let sum := rows.foldl (fun acc r => acc + r.2) 0
+      match s.e.expect with
+      | none => (s, s!"ok sets=1 rows1={rows.length + 1} rows2=0 sum={sum}")
+      | some ex => (s, s!"ok sets=2 rows1={rows.length + 1} rows2={(plotExpected ex).length} sum={sum}")
+  | "hplotsurv" :: _ =>
+    match h.plotSurvival with
+    | .fault => (s, "fault")
+    | .val (first, rows) =>
+      let r1 := rows.length + (if first then 1 else 0)
+      let cum := match rows.getLast? with | some r => r.2 | none => 0
+      let cumS := if h.nc > 0 && h.nc ≤ 10000 then (if r1 == 0 then "0" else toString cum) else "-"
+      match s.e.expect with
+      | none => (s, s!"ok sets=1 rows1={r1} rows2=0 cum={cumS}")
+      | some ex => (s, s!"ok sets=2 rows1={r1} rows2={(survExpected ex).length} cum={cumS}")
   | "hexpfit" :: _ => (s, fitOut (expFitCompleteBinned h))
   | "hgamfit" :: _ => (s, fitOut (gamFitCompleteBinned h))
-  | "hweifit" :: _ => (s, fitOut (weiFitCompleteBinned h))
+  | "hweifit" :: _ => (s, fitOut (weiFitCompleteBinned h s.e.isTailfit))
   | "hsxpfit" :: _ => (s, "unmodelled")
   | _ => (s, "bad-op")
 
@@ -232,9 +273,9 @@ def step (s : S) (line : String) : S × String :=
     | some bmin, some bmax, some w =>
       let r := if (argNat? ws "full").getD 0 == 1 then Hist.createFull bmin bmax w else Hist.create bmin bmax w
       match r with
-      | .fault => ({ s with h := none }, "fault")
-      | .val none => ({ s with h := none }, "null")
-      | .val (some h) => ({ s with h := some h }, s!"ok nb={h.nb}")
+      | .fault => ({ s with h := none, e := Expect.init }, "fault")
+      | .val none => ({ s with h := none, e := Expect.init }, "null")
+      | .val (some h) => ({ s with h := some h, e := Expect.init }, s!"ok nb={h.nb}")
     | _, _, _ => (s, "bad-op")
   | "sample" :: _ => (s, "unmodelled")
   | "root" :: _ => (s, stepRoot ws)
